@@ -86,8 +86,10 @@ class PersistentRemoteWorker(PersistentWorker, RemoteWorker):
         while True:
             try:
                 result = recv_msg(self._socket, comment='data: result')
-            except ConnectionClosedError:
-                logger.debug('Connection closed by the remote peer')
+            except Exception as e:
+                # either the connection is closed or what has been received cannot be recreated on our side,
+                # in both cases no more results can be reported
+                logger.debug('Connection closed by the remote peer', exc_info=(not isinstance(e, ConnectionClosedError)))
                 self._socket_closed = True
                 self._result = (False, None)
                 if not last_partial_result_signalled:
